@@ -93,3 +93,9 @@ def run(cx):
             ok = e is not None and g is not None
         cx.ob('GUARD', 'Mesh::indices_in_tol', ok, 'index i is reported exactly when project_with_tol(points[i], max_dist, max_angle, transform) is Some', where=b.file)
     E.enc(cx, M, ('shape', 'is_solid', 'uv'), constructors=[f'{M}::new', f'{M}::new_take_trimesh', f'{M}::new_with_uv', f'{M}::new_with_options'])
+
+
+def run_thorough(cx):
+    """thorough tier: the generic evaluators this property relies on must fire on their positive fixture twins"""
+    from rules import fixture_check as FX
+    FX.enc(cx)
